@@ -138,8 +138,10 @@ pub fn run(ctx: &mut Ctx) {
         let op = format!("kd.session {} {} {} {}", hex::encode(&eng), hex::encode(&erk), hex::encode(to_bytes(h)), hex::encode(&scalar));
         ctx.emit.line("spec", "spec:handover:device-keys", format!("spec.eqmodel ok_{dr}_{dd} {op}"), "true".into(), serde_json::json!({"handover": hn, "msg_hex": hex::encode(to_bytes(h))}));
     } }
-    for i in 0..(if ctx.thorough { 200 } else { 30 }) {
-        let z: [u8; 32] = rng.gen();
+    for i in 0..(if ctx.thorough { 200 } else { 40 }) {
+        let mut z: [u8; 32] = rng.gen();
+        // boundary shared secrets: leading zero bytes (about 1 in 256 real sessions), all-zero prefix, trailing zeros
+        match i % 8 { 0 => z[0] = 0, 1 => { z[0] = 0; z[1] = 0; } 2 => { for b in z.iter_mut().take(31) { *b = 0; } } 3 => z[31] = 0, _ => {} }
         let (_, h) = &handovers[i % handovers.len()];
         let Ok(handover) = cbor::from_value::<Handover>(h.clone()) else { continue };
         let init = device::SessionManagerInit::initialise(docs(), None, None).unwrap();
@@ -155,6 +157,30 @@ pub fn run(ctx: &mut Ctx) {
             let op = format!("kd.sessionKey {} {} {}", hex::encode(z), hex::encode(&inner), if reader { "t" } else { "f" });
             ctx.emit.line("spec", "spec:derive_session_key", format!("spec.eqmodel {real} {op}"), "true".into(), serde_json::json!({"msg_hex": format!("{}{}", hex::encode(z), reader)}));
         }
+    }
+
+    // --- C2. sessions whose ECDH secret starts with a zero byte: the harness plays the reader and searches for such a key
+    for round in 0..(if ctx.thorough { 6 } else { 2 }) {
+        let init = device::SessionManagerInit::initialise(docs(), None, None).unwrap();
+        let (engaged, qr) = init.qr_engagement().unwrap();
+        let eng = base64::decode_config(qr.strip_prefix("mdoc:").unwrap(), base64::URL_SAFE_NO_PAD).unwrap();
+        let st = sess::b64_to_value(&engaged.stringify().unwrap());
+        let scalar: Vec<u8> = sess::vget(&st, "e_device_key").and_then(|v| v.as_array()).unwrap().iter().map(|x| i128::from(x.as_integer().unwrap()) as u8).collect();
+        let dev_sk = p256::NonZeroScalar::try_from(scalar.as_slice()).unwrap();
+        let mut found = None;
+        for _ in 0..20000 {
+            let k = world::key_from(&mut rng);
+            let z = p256::ecdh::diffie_hellman(dev_sk, k.verifying_key().as_affine());
+            if z.raw_secret_bytes()[0] == 0 && (round % 2 == 0 || z.raw_secret_bytes()[1] < 16) { found = Some(k); break; }
+        }
+        let Some(k) = found else { continue };
+        let ck = world::cose_key_of(&k);
+        let erk = cbor::to_vec(&ck).unwrap();
+        let se = SessionEstablishment { e_reader_key: Tag24::new(ck).unwrap(), data: vec![1, 2, 3].into() };
+        let Ok((dev, _)) = engaged.process_session_establishment(se, TrustAnchorRegistry::default()) else { continue };
+        let (dr, dd) = keys_of(&dev.stringify().unwrap());
+        let op = format!("kd.session {} {} {null_hex} {}", hex::encode(&eng), hex::encode(&erk), hex::encode(&scalar));
+        ctx.emit.line("spec", "spec:session:leading-zero-secret", format!("spec.eqmodel ok_{dr}_{dd} {op}"), "true".into(), serde_json::json!({"msg_hex": hex::encode(&erk)}));
     }
 
     // --- D. invalid and unusual peer keys: refused rather than used
